@@ -221,6 +221,10 @@ def write_evidence(ctx: Ctx, explanation: str, not_decided: str,
         'alpha_normalised_functions': [
             '%s:%s %s' % (m, q, ren)
             for m, q, ren in getattr(ctx.program, 'alpha_renamed', [])],
+        'inlined': ['%s:%s <- %s' % (m, q, h)
+                    for m, q, h in getattr(ctx.program, 'inlined', [])],
+        'inline_skipped': ['%s (%s)' % (w, why) for w, why in
+                           getattr(ctx.program, 'inline_skipped', [])][:40],
     }
     if extra_cov:
         cov.update(extra_cov)
